@@ -105,6 +105,49 @@ def proxy_stream(ctx, res, n):
                     cfg.dct = {"k%d" % j: g for j, g in enumerate(good)}
 
 
+def container_validator_stream(ctx, res, n):
+    """whole-value assignments to typed list / dict fields that carry their own validator: the entries are all acceptable, the
+    field's validator rejects the whole (too many entries) — the container held before must be what is held afterwards"""
+    import cincoconfig as cc
+    rng = ctx.rng
+    for i in range(n):
+        s = cc.Schema()
+        s.lst = cc.ListField(cc.IntField(), validator=F.CATALOGUE["small"], default=lambda: [1])
+        s.dct = cc.DictField(cc.StringField(), cc.IntField(), validator=F.CATALOGUE["small"], default=lambda: {"default": 10})
+        s.sub.dct = cc.DictField(cc.StringField(), cc.StringField(transform_case="lower"), validator=F.CATALOGUE["small"])
+        cfg = s()
+        if rng.random() < 0.6:
+            cfg.lst = [rng.randint(0, 9) for _ in range(rng.randint(0, 2))]
+            cfg.dct = {"k%d" % j: j for j in range(rng.randint(0, 2))}
+            cfg.sub.dct = {"a": "x"}
+        for route in ("attr", "item"):
+            big_l = [rng.randint(0, 99) for _ in range(rng.randint(3, 5))]
+            big_d = {"n%d" % j: rng.randint(0, 99) for j in range(rng.randint(3, 5))}
+            for key, val in (("lst", big_l), ("dct", big_d), ("sub.dct", {k: "V" for k in big_d})):
+                ids = C.Ids()
+                before = C.canon_state(C.dump_cfg(cfg, ids), {})
+                held = cfg[key]
+                held_copy = list(held) if isinstance(held, list) else (dict(held) if held is not None else None)
+                try:
+                    if route == "attr" and "." not in key:
+                        setattr(cfg, key, val)
+                    elif route == "load_tree":
+                        tree = {key: val} if "." not in key else {"sub": {"dct": val}}
+                        cfg.load_tree(tree)
+                    else:
+                        cfg[key] = val
+                    raised = False
+                except Exception:  # noqa
+                    raised = True
+                after = C.canon_state(C.dump_cfg(cfg, ids), {})
+                now = cfg[key]
+                case = {"stream": "container-validator", "route": route, "key": key, "value": F.enc_val(val)}
+                res.case(stable([route, key, F.enc_val(val), i]) if raised else None, kind="container-validator:" + ("rejected" if raised else "ok"))
+                same_obj = (list(held) if isinstance(held, list) else (dict(held) if held is not None else None)) == held_copy
+                if raised and route != "load_tree" and (before != after or not same_obj):
+                    res.violate("C06:container-validator-changed-state", "an assignment rejected by the field's own validator changed the container held before", case)
+
+
 def P_same(a, b):
     import props.c05 as c05
     if isinstance(a, int):
@@ -158,6 +201,7 @@ def run(ctx, n_quick=200, n_thorough=6000):
     res = Result()
     P.run_stream(ctx, res, "C06", ctx.n(n_quick, n_thorough), oracle, gen_ops=gen_ops)
     proxy_stream(ctx, res, ctx.n(60, 2000))
+    container_validator_stream(ctx, res, ctx.n(40, 1500))
     doc_stream(ctx, res, ctx.n(3, 60))
     return res
 
